@@ -531,3 +531,23 @@ def install(cfg):
         if is_plain(b):
             return api.spec_deflate_raw(b)
         return interp.mk("vbytes", TC.Deflate(interp.bytes_term(b)))
+
+    @cfg.stub(api.crypto_events)
+    def crypto_events(interp, out, kind):
+        res = []
+        for ev in interp.ctx.events:
+            if ev[0] != kind:
+                continue
+            items = []
+            for x in ev[1:]:
+                if isinstance(x, z3.ExprRef):
+                    if x.sort() == StringSort:
+                        items.append(interp.from_term(mk_bytes(x)))
+                    elif x.sort() == IntSort:
+                        items.append(interp.from_term(mk_int(x)))
+                    else:
+                        items.append(SVal(x) if x.sort() == PyVal else x)
+                else:
+                    items.append(x)
+            res.append(tuple(items))
+        return HList(items=res)
